@@ -283,8 +283,10 @@ def run(ctx):
     setup = find_setup(repo, INF, 'FactoredInference')
     from ..normalise import normalised
     setup = normalised(repo, setup)
-    from ._generic import scan_pop, buffered_accumulation
+    from ._generic import scan_pop, buffered_accumulation, measurement_keys_kept
     scan_pop(ctx, setup)
+    for name_, m_ in sorted(repo.methods(INF, 'FactoredInference').items()):
+        measurement_keys_kept(ctx, m_, 'projection-order')
     lip = repo.nfunc(INF, 'FactoredInference._lipschitz')
     buffered_accumulation(ctx, lip, 'lipschitz-form')
     loss = repo.nfunc(INF, 'FactoredInference._marginal_loss')
